@@ -217,3 +217,57 @@ TWINS["C15"] = [
     TW("subtask-comment-and-assert",
        (OPT, "            real_reward = self.mdp.reward(s, a, ns)\n", "            real_reward = self.mdp.reward(s, a, ns)\n            assert real_reward is not None\n")),
 ]
+
+# ----------------------------------------------------------------------------------- C05
+SEARCH = A + "search.py"
+DSP = C + "mdp/deterministic_shortest_path.py"
+MUTANTS["C05"] = [
+    M("revert-F3-support-subscript", ["IFC-2"],
+      (DSP, "                next_state = tuple(mdp.next_state_dist(s, a).support)", "                next_state = mdp.next_state_dist(s, a).support")),
+    M("bfs-guard-drops-queue-test", ["PRED-3"],
+      (SEARCH, "if ns not in visited and ns not in queue:", "if ns not in visited:")),
+    M("bfs-lifo-frontier", ["PRED-3"],
+      (SEARCH, "s = queue.popleft()", "s = queue.pop()")),
+    M("bfs-return-without-goal-test", ["RET-1"],
+      (SEARCH, "            if dsp.is_absorbing(s):\n                path = reconstruct_path(camefrom, start, s)\n                return Result(\n                    path=path,\n                    policy=camefrom_to_policy(path, camefrom, dsp),\n                    visited=visited,\n                )",
+       "            if dsp.is_absorbing(s) or len(visited) > 10**6:\n                path = reconstruct_path(camefrom, start, s)\n                return Result(\n                    path=path,\n                    policy=camefrom_to_policy(path, camefrom, dsp),\n                    visited=visited,\n                )")),
+    M("astar-goal-test-on-successor", ["RET-1"],
+      (SEARCH, "            if dsp.is_absorbing(s):\n                assert node.heuristic_cost == node.cost_from_start",
+       "            if dsp.is_absorbing(s) or not dsp.actions(s):\n                assert node.heuristic_cost == node.cost_from_start")),
+    M("astar-cost-sign", ["COST-1"],
+      (SEARCH, "next_cost_from_start = node.cost_from_start - dsp.reward(s, a, ns)", "next_cost_from_start = node.cost_from_start + dsp.reward(s, a, ns)")),
+    M("astar-reward-args-swapped", ["COST-1", "ARG"],
+      (SEARCH, "next_cost_from_start = node.cost_from_start - dsp.reward(s, a, ns)", "next_cost_from_start = node.cost_from_start - dsp.reward(ns, a, s)")),
+    M("astar-priority-plus-heuristic", ["COST-2"],
+      (SEARCH, "heuristic_cost=next_cost_from_start - self.heuristic_value(ns),", "heuristic_cost=next_cost_from_start + self.heuristic_value(ns),")),
+    M("astar-priority-heuristic-of-parent", ["COST-2"],
+      (SEARCH, "heuristic_cost=next_cost_from_start - self.heuristic_value(ns),", "heuristic_cost=next_cost_from_start - self.heuristic_value(s),")),
+    M("astar-start-priority", ["COST-3"],
+      (SEARCH, "push(heuristic_cost=-self.heuristic_value(start), cost_from_start=0, state=start)", "push(heuristic_cost=self.heuristic_value(start), cost_from_start=0, state=start)")),
+    M("astar-path-value-is-priority", ["COST-4"],
+      (SEARCH, "path_value=node.cost_from_start,", "path_value=node.heuristic_cost,")),
+    M("astar-node-field-order", ["HEAP-1"],
+      (SEARCH, "    heuristic_cost: float\n    tie_break: float\n    cost_from_start: float\n    state: Any", "    heuristic_cost: float\n    cost_from_start: float\n    state: Any\n    tie_break: float")),
+    M("astar-revision-guard-reversed", ["REV-1"],
+      (SEARCH, "best_in_queue_by_state[ns].cost_from_start <= next_cost_from_start:", "best_in_queue_by_state[ns].cost_from_start >= next_cost_from_start:")),
+    M("astar-camefrom-swapped-pair", ["PRED-1"],
+      (SEARCH, "                    state=ns,\n                )\n                camefrom[ns] = (s, a)", "                    state=ns,\n                )\n                camefrom[ns] = (a, s)")),
+    M("reconstruct-follows-action", ["PRED-2"],
+      (SEARCH, "path.append(camefrom[path[-1]][0])", "path.append(camefrom[path[-1]][1])")),
+    M("policy-maps-action-to-state", ["PRED-2"],
+      (SEARCH, "            policy_dict[s] = a", "            policy_dict[a] = s")),
+    M("from-mdp-reward-is-absorbing", ["WIRE-1"],
+      (DSP, "DeterministicShortestPathProblemFromMDP.reward = staticmethod(mdp.reward)", "DeterministicShortestPathProblemFromMDP.reward = staticmethod(mdp.is_absorbing)")),
+]
+TWINS["C05"] = [
+    TW("bfs-guard-reordered",
+       (SEARCH, "if ns not in visited and ns not in queue:", "if ns not in queue and ns not in visited:")),
+    TW("bfs-guard-camefrom",
+       (SEARCH, "if ns not in visited and ns not in queue:", "if ns not in visited and ns not in queue and ns not in camefrom:")),
+    TW("astar-strict-revision",
+       (SEARCH, "best_in_queue_by_state[ns].cost_from_start <= next_cost_from_start:", "best_in_queue_by_state[ns].cost_from_start < next_cost_from_start:")),
+    TW("dsp-list-instead-of-tuple",
+       (DSP, "                next_state = tuple(mdp.next_state_dist(s, a).support)", "                next_state = list(mdp.next_state_dist(s, a).support)")),
+    TW("astar-extra-logging",
+       (SEARCH, "            # Mark the current state as visited.\n            visited.add(s)", "            # Mark the current state as visited.\n            n_expanded = len(visited)\n            visited.add(s)")),
+]
